@@ -149,6 +149,29 @@ def run_case(ck, desc):
         full = dict(pvt, **dict(zip(names, dens)))
         got = np.asarray(fp.compressibility_combined_func(p, So, phi, Sw, full), dtype=float)
         ck.count("compressibility_calls")
+        # the caller's look-ups may hand back ONE output buffer per shape, filled anew on every call (a common way of
+        # writing fast table look-ups): each call's answer is right when it is made - the same storage term results
+        def recycling(f_):
+            bufs = {}
+
+            def g_(x):
+                y = np.asarray(f_(x), dtype=float)
+                b = bufs.setdefault(y.shape, np.empty(y.shape))
+                b[...] = y
+                return b
+
+            return g_
+
+        rec_ = {k_: (recycling(v_) if callable(v_) else v_) for k_, v_ in full.items()}
+        try:
+            got_rec = np.asarray(fp.compressibility_combined_func(p, So, phi, Sw, rec_), dtype=float)
+            lam_a = np.asarray(fp.lambda_combined_func(p, So, full, kr_fns), dtype=float) if "kr_fns" in dir() else None
+            ck.count("calls_with_buffer_recycling_look-ups")
+            sc_r = np.abs(got) + 1e-300
+            if not ck.margin("storage term with buffer-recycling look-ups = with fresh arrays", float(np.max(np.abs(got_rec - got) / sc_r)), 1e-12):
+                ck.violation("same-result-with-buffer-recycling-look-ups", {"max_rel": float(np.max(np.abs(got_rec - got) / sc_r)), "c_fresh": got[:3].tolist(), "c_recycling": got_rec[:3].tolist()}, desc)
+        except Exception as e:  # noqa: BLE001
+            ck.violation("same-result-with-buffer-recycling-look-ups", {"raised": repr(e)[:200]}, desc)
         if int(phi * 1e4) % 9 == 0:
             # four different fluids evaluated from four threads at once: each answer equals the call made alone
             import functools
